@@ -72,7 +72,7 @@ def build(name, spec, X, seed=0):
     expect = None
     for k in ("n_clusters", "max_iter", "learning_rate", "solver", "batch_size", "n_hidden_dim", "reg", "alpha", "M", "dynamic",
               "n_cuts", "temperature", "random_state", "max_clusters", "max_depth", "min_samples_split", "min_samples_leaf",
-              "max_features", "max_leaves", "verbose"):
+              "max_features", "max_leaves", "verbose", "_route"):
         if k in spec:
             kw[k] = spec[k]
     if "groups" in spec:
